@@ -8,6 +8,26 @@ import os, re, shutil, subprocess, tempfile, time, json
 REPO = os.environ.get("VERIF_REPO", "/repo")
 
 
+def run_group(cmd, cwd, env, tmo):
+    """run in its own process group with an address-space cap; on timeout kill the whole group (cbmc children included)"""
+    import signal, resource
+    def pre():
+        os.setsid()
+        cap = 24 * 1024 ** 3
+        resource.setrlimit(resource.RLIMIT_AS, (cap, cap))
+    p = subprocess.Popen(cmd, cwd=cwd, env=env, stdout=subprocess.PIPE, stderr=subprocess.STDOUT, preexec_fn=pre)
+    try:
+        out, _ = p.communicate(timeout=tmo)
+        return out.decode("utf-8", "replace"), p.returncode
+    except subprocess.TimeoutExpired:
+        try:
+            os.killpg(p.pid, signal.SIGKILL)
+        except Exception:
+            pass
+        out, _ = p.communicate()
+        return out.decode("utf-8", "replace") + "\nTIMEOUT", 124
+
+
 def run_kani_for(root, pid, specs, tier, seed, work):
     sel = [s for s in specs if tier == "thorough" or s.get("tier", "quick") == "quick"]
     out = {"harnesses": []}
@@ -28,13 +48,7 @@ def run_kani_for(root, pid, specs, tier, seed, work):
             cmd += ["--harness", s["harness"]]
         tmo = max(s.get("timeout", 900) for s in sel)
         t0 = time.time()
-        try:
-            p = subprocess.run(cmd, cwd=scratch, env=env, stdout=subprocess.PIPE, stderr=subprocess.STDOUT, timeout=tmo)
-            txt = p.stdout.decode("utf-8", "replace")
-            rc = p.returncode
-        except subprocess.TimeoutExpired as e:
-            txt = (e.stdout or b"").decode("utf-8", "replace") + "\nTIMEOUT"
-            rc = 124
+        txt, rc = run_group(cmd, scratch, env, tmo)
         dt = time.time() - t0
         with open(os.path.join(work, "kani-%s.log" % pid), "w") as f:
             f.write(" ".join(cmd) + "\n" + txt)
@@ -97,14 +111,10 @@ def run_kani_for(root, pid, specs, tier, seed, work):
             h = failed[0]
             cmd2 = ["cargo", "kani", "-Z", "stubbing", "-Z", "function-contracts", "-Z", "concrete-playback", "--concrete-playback=print",
                     "--output-format", "terse", "--harness", h["harness"]]
-            try:
-                p2 = subprocess.run(cmd2, cwd=scratch, env=env, stdout=subprocess.PIPE, stderr=subprocess.STDOUT, timeout=tmo)
-                t2 = p2.stdout.decode("utf-8", "replace")
-                m = re.search(r"Concrete playback unit test for `[^`]*`:\s*```(.*?)```", t2, re.S)
-                if m:
-                    h["concrete"] = m.group(1).strip()[:6000]
-            except subprocess.TimeoutExpired:
-                pass
+            t2, _ = run_group(cmd2, scratch, env, tmo)
+            m = re.search(r"Concrete playback unit test for `[^`]*`:\s*```(.*?)```", t2, re.S)
+            if m:
+                h["concrete"] = m.group(1).strip()[:6000]
     finally:
         shutil.rmtree(scratch, ignore_errors=True)
     return out
